@@ -124,6 +124,17 @@ CLAIMS["C11"] = {
   "note": "L2 (exact consumption of header+body bytes, sticky corruption in the loader loop) has a skeleton harness (harness/C11_loader.c) that is registered only once it decides in "
           "budget; a direct multi-chunk run through the heap-string loader is out of reach. The induction over chunks is an argument in DESIGN.md.",
 }
+CLAIMS["C12"] = {
+  "text": "For every header of a family of concrete layouts (7 field lists with known and unknown field codes, both byte orders) with all value bytes, flags, type, serial and body length "
+          "symbolic, ONE edit through the real _dbus_header_set_field_basic (string, object-path, signature and uint32 fields; present -> replaced in place by a shorter, equal or longer "
+          "value; absent -> appended), _dbus_header_delete_field or _dbus_header_remove_unknown_fields yields exactly the canonical serialisation of the edited field list: every other "
+          "field, the fixed part, the array length word, all alignment padding (zero) and header->padding are as an independent encoder computes them, and every field reads back "
+          "through _dbus_header_get_field_basic as set / as before. The canonical serialisation is well-formed by construction; one step from any canonical header is the induction step "
+          "for edit sequences within the family.",
+  "note": "Layouts are job shapes (R4): at most 5 fields, values up to 11 bytes, headers up to 160 bytes. The body lives in a separate DBusString that none of the encoded functions receives. "
+          "Allocation failure during an edit, the dbus_message_set_* argument checks and messages whose mandatory fields were deleted ('fully valid as long as ...') are outside. "
+          "Two modelling devices are part of the claim: DBusString storage comes from fixed pool buffers (R19), and the two strlen calls of dbus-marshal-basic.c are a checked oracle.",
+}
 CLAIMS["C19"] = {
   "text": "(a) Activation helper: on the real decision chain of bus/activation-helper.c, for every bus name and service-file content within the bound, a program is executed at most "
           "once and only for a syntactically valid bus name whose service file declares exactly that Name together with Exec and User. (b-d) Bus side, as skeletons of the real "
@@ -153,9 +164,6 @@ CLAIMS["C17"] = {
           "ghost lock checks for balance only. Connection-close completion of all calls is not covered. Hash table = 2-slot map, messages = ghost records.",
 }
 NOT_APPLICABLE = {f"C{n:02d}": PENDING for n in range(1, 21)}
-NOT_APPLICABLE["C12"] = ("not decided with this technique here: header edits go through DBusTypeReader delete/set + replacement blocks on DBusString; three encodings in the design round and a "
-                         "fixed-capacity in-place-string harness for _dbus_header_remove_unknown_fields (harness/C12_strip.c, concrete two-field header) did not finish symbolic execution "
-                         "in 600 s; no partial claim would decide the statement")
 
 
 NOTES = ("All checks are solver-based (CBMC) over the real sources; see DESIGN.md. Exit 0 = all obligations UNSAT inside the stated bounds; "
